@@ -32,6 +32,10 @@ class UserErr(Exception):
     pass
 
 
+class UserBase(BaseException):
+    """Thrown in by the driver too: not an Exception (like CancelledError / KeyboardInterrupt)."""
+
+
 def val(k):
     """Returned-value menu: small ints, one non-int and None."""
     return 's' if k == 3 else (None if k == 2 else k)
@@ -68,8 +72,8 @@ def gen_body(script, log):
                     except GeneratorExit:
                         log.append(('genexit',))
                         raise
-                    except UserErr as e:
-                        log.append(('caught', e.args))
+                    except (UserErr, UserBase) as e:
+                        log.append(('caught', type(e).__name__, e.args))
                 elif kind == 1:                     # return a value
                     return val(p)
                 else:                               # raise
@@ -93,8 +97,8 @@ def agen_body(script, log, cleanup=False):
                     except GeneratorExit:
                         log.append(('genexit',))
                         raise
-                    except UserErr as e:
-                        log.append(('caught', e.args))
+                    except (UserErr, UserBase) as e:
+                        log.append(('caught', type(e).__name__, e.args))
                 elif kind == 1:
                     return
                 else:
@@ -118,8 +122,8 @@ def coro_body(script, log):
                     try:
                         got = await Suspend(p)
                         log.append(('got', got))
-                    except UserErr as e:
-                        log.append(('caught', e.args))
+                    except (UserErr, UserBase) as e:
+                        log.append(('caught', type(e).__name__, e.args))
                 elif kind == 1:
                     return val(p)
                 else:
@@ -139,8 +143,8 @@ def outcome(thunk):
         return ('astop',)
     except (BeartypeCallHintReturnViolation, VerifError):
         return ('return-violation',)
-    except UserErr as e:
-        return ('raise', 'UserErr', e.args)
+    except (UserErr, UserBase) as e:
+        return ('raise', type(e).__name__, e.args)
     except GeneratorExit:
         return ('raise', 'GeneratorExit')
     except RuntimeError as e:
@@ -149,7 +153,7 @@ def outcome(thunk):
         return ('raise', type(e).__name__)
 
 
-def step(awaitable):
+def _unused_step(awaitable):
     """Run an awaitable that never really suspends (asend/athrow/aclose of our scripted generators)."""
     return outcome(lambda: awaitable.send(None)) if hasattr(awaitable, 'send') else outcome(lambda: awaitable.__await__().send(None))
 
@@ -165,6 +169,8 @@ def drive_gen(fn, ops, log):
             obs.append(outcome(lambda: g.send(p)))
         elif op == 2:
             obs.append(outcome(lambda: g.throw(UserErr(p))))
+        elif op == 4:
+            obs.append(outcome(lambda: g.throw(UserBase(p))))
         else:
             obs.append(outcome(lambda: g.close()))
         log.append(('after-op', len(obs)))      # interleaving of finalisation with the caller's operations is observable
@@ -183,8 +189,8 @@ def _astep(aw):
             return tuple(seen) + (('value', e.value),)
         except StopAsyncIteration:
             return tuple(seen) + (('astop',),)
-        except UserErr as e:
-            return tuple(seen) + (('raise', 'UserErr', e.args),)
+        except (UserErr, UserBase) as e:
+            return tuple(seen) + (('raise', type(e).__name__, e.args),)
         except (BeartypeCallHintReturnViolation, VerifError):
             return tuple(seen) + (('return-violation',),)
         except RuntimeError as e:
@@ -206,6 +212,8 @@ def drive_agen(fn, ops, log):
             obs.append(_astep(g.asend(p)))
         elif op == 2:
             obs.append(_astep(g.athrow(UserErr(p))))
+        elif op == 4:
+            obs.append(_astep(g.athrow(UserBase(p))))
         else:
             obs.append(_astep(g.aclose()))
         log.append(('after-op', len(obs)))
@@ -223,6 +231,8 @@ def drive_coro(fn, ops, log):
             obs.append(outcome(lambda: c.send(None if op == 0 or not obs[1:] else p)))
         elif op == 2:
             obs.append(outcome(lambda: c.throw(UserErr(p))))
+        elif op == 4:
+            obs.append(outcome(lambda: c.throw(UserBase(p))))
         else:
             obs.append(outcome(lambda: c.close()))
         log.append(('after-op', len(obs)))
@@ -312,7 +322,7 @@ def spec(kind, n_script, n_ops, confkw, tag, ann=None, host='function'):
         pre += [f'0 <= k{i} <= 2', f'-1 <= p{i} <= 3']
     for i in range(n_ops):
         params += [(f'o{i}', 'int'), (f'q{i}', 'int')]
-        pre += [f'0 <= o{i} <= 3', f'-1 <= q{i} <= 2']
+        pre += [f'0 <= o{i} <= 4', f'-1 <= q{i} <= 2']
     script = '[' + ', '.join(f'(k{i}, p{i})' for i in range(n_script)) + ']'
     ops = '[' + ', '.join(f'(o{i}, q{i})' for i in range(n_ops)) + ']'
     body = f'return compare({kind!r}, {script}, {ops})'
